@@ -27,6 +27,9 @@ import (
 	"github.com/kubewharf/kubebrain/pkg/backend"
 	"github.com/kubewharf/kubebrain/pkg/backend/coder"
 	"github.com/kubewharf/kubebrain/pkg/storage"
+	itikv "github.com/kubewharf/kubebrain/pkg/storage/tikv"
+	"github.com/tikv/client-go/v2/testutils"
+	"github.com/tikv/client-go/v2/tikv"
 
 	"kbverif/lib"
 )
@@ -93,12 +96,32 @@ const (
 	engTiKVSplitKey = "tikv-split-key"
 	engTiKVSplitVer = "tikv-split-version"
 	engTiKVMany     = "tikv-many-regions" // one region per key of manyKeys: more regions than one PD page
+	engTiKV2        = "tikv-2-clients"    // the adapter balances its calls over several clients, each with its own
+	engTiKV4        = "tikv-4-clients"    // timestamp oracle (200 in the production constructor), over one cluster
 	manyKeys        = 150
 )
 
 func manyKey(i int) []byte { return []byte(fmt.Sprintf("/registry/k%04d", i)) }
 
-var engines = []string{lib.EngMem, lib.EngBadger, lib.EngTiKV, lib.EngWrapMem, lib.EngWrapBadger, engTiKVSplitKey, engTiKVSplitVer}
+var engines = []string{lib.EngMem, lib.EngBadger, lib.EngTiKV, lib.EngWrapMem, lib.EngWrapBadger, engTiKVSplitKey, engTiKVSplitVer, engTiKV2, engTiKV4}
+
+func newTiKVClients(n int) (storage.KvStorage, func(), error) {
+	rpcClient, cluster, pdClient, err := testutils.NewMockTiKV("", nil)
+	if err != nil {
+		return nil, nil, err
+	}
+	testutils.BootstrapWithSingleStore(cluster)
+	stores := make([]*tikv.KVStore, 0, n)
+	for i := 0; i < n; i++ {
+		st, err := tikv.NewTestTiKVStore(rpcClient, pdClient, nil, nil, 0)
+		if err != nil {
+			return nil, nil, err
+		}
+		stores = append(stores, st)
+	}
+	kv := itikv.NewKvStoreWithStorage(stores)
+	return kv, func() { _ = kv.Close() }, nil
+}
 
 func openEngine(eng, scratch string) (storage.KvStorage, func(), error) {
 	cd := coder.NewNormalCoder()
@@ -107,6 +130,10 @@ func openEngine(eng, scratch string) (storage.KvStorage, func(), error) {
 		return lib.NewTiKVSplit(cd.EncodeObjectKey([]byte("/registry/b"), 0))
 	case engTiKVSplitVer:
 		return lib.NewTiKVSplit(cd.EncodeObjectKey([]byte("/registry/a"), initRev+3))
+	case engTiKV2:
+		return newTiKVClients(2)
+	case engTiKV4:
+		return newTiKVClients(4)
 	case engTiKVMany:
 		var splits [][]byte
 		for i := 0; i < manyKeys; i++ {
@@ -597,6 +624,30 @@ func manyRegionsHistory() History {
 	return History{Name: "fixed:many-regions", Reqs: reqs, Engines: []string{lib.EngMem, lib.EngBadger, lib.EngTiKV, engTiKVMany}}
 }
 
+// every acknowledged (and published) write is followed at once by the partition-driven reads: they must see it on
+// every engine configuration, also when the TiKV adapter spreads its calls over several clients
+func readYourWritesHistory() History {
+	a, b, c := B("/registry/a"), B("/registry/b"), B("/registry/c")
+	lo, hi := B("/registry/"), B("/registry0")
+	reads := func() []Req {
+		return []Req{{Kind: "list", Key: lo, End: hi}, {Kind: "list", Key: lo, End: hi, Limit: 2},
+			{Kind: "count", Key: lo, End: hi}, {Kind: "stream", Key: lo, End: hi}, {Kind: "get", Key: a}}
+	}
+	writes := []Req{
+		{Kind: "create", Key: a, Val: B("v1")}, {Kind: "create", Key: b, Val: B("v2")},
+		{Kind: "update", Key: a, Val: B("v3"), Rev: initRev + 1}, {Kind: "delete", Key: b},
+		{Kind: "create", Key: c, Val: B("v4")}, {Kind: "update", Key: a, Val: B("v5"), Rev: initRev + 3},
+		{Kind: "delete", Key: a, Rev: initRev + 6}, {Kind: "create", Key: a, Val: B("v6")},
+		{Kind: "compact"}, {Kind: "update", Key: c, Val: B("v7"), Rev: initRev + 5},
+	}
+	var reqs []Req
+	for _, w := range writes {
+		reqs = append(reqs, w)
+		reqs = append(reqs, reads()...)
+	}
+	return History{Name: "fixed:read-your-writes", Reqs: reqs}
+}
+
 func corpus() []History {
 	a, b := B("/registry/a"), B("/registry/b")
 	lo, hi := B("/registry/"), B("/registry0")
@@ -648,6 +699,7 @@ func corpus() []History {
 			{Kind: "get", Key: a}, {Kind: "list", Key: lo, End: hi}, {Kind: "create", Key: B("/registry/c"), Val: B("v3")},
 			{Kind: "compact", Rev: initRev + 1}, {Kind: "count", Key: lo, End: hi}, {Kind: "stream", Key: lo, End: hi}}},
 		manyRegionsHistory(),
+		readYourWritesHistory(),
 		{Name: "fixed:empty-value", Reqs: []Req{
 			{Kind: "create", Key: a, Val: B("")}, {Kind: "get", Key: a}, {Kind: "list", Key: lo, End: hi},
 			{Kind: "update", Key: a, Val: B("v2"), Rev: initRev + 1}, {Kind: "get", Key: a}}},
@@ -723,7 +775,7 @@ func coqResp(r Resp) string {
 
 // the region layout is not part of the adapter model: all three TiKV mocks are checked against the same model
 var coqEng = map[string]string{lib.EngMem: "EMem", lib.EngBadger: "EBadger", lib.EngTiKV: "ETiKV",
-	lib.EngWrapMem: "EWrapMem", lib.EngWrapBadger: "EWrapBadger", engTiKVSplitKey: "ETiKV", engTiKVSplitVer: "ETiKV", engTiKVMany: "ETiKV"}
+	lib.EngWrapMem: "EWrapMem", lib.EngWrapBadger: "EWrapBadger", engTiKVSplitKey: "ETiKV", engTiKVSplitVer: "ETiKV", engTiKVMany: "ETiKV", engTiKV2: "ETiKV", engTiKV4: "ETiKV"}
 
 func coqRun(r Run) string {
 	rs := make([]string, len(r.Resps))
@@ -921,7 +973,7 @@ func main() {
 			Outcomes: ocs})
 	}
 	w.Stats.Extra["request_kinds"] = reqKinds
-	if err := w.Finish("one case = one sequential history (8-30 requests) run on 7 engines (memkv, Badger, TiKV mock with one region / a border between two keys / a border inside one key's versions, metrics wrapper over memkv and Badger) from revision 1000; keys from a pool of 6 (5 under the backend prefix), expectations steered to be correct / stale / zero / future; non-trivial = at least three different request outcomes; distinct = SHA-256 of the Coq case"); err != nil {
+	if err := w.Finish("one case = one sequential history (8-30 requests) run on 9 engine configurations (memkv, Badger, TiKV mock with one region / a border between two keys / a border inside one key's versions / 2 clients / 4 clients, metrics wrapper over memkv and Badger) from revision 1000; keys from a pool of 6 (5 under the backend prefix), expectations steered to be correct / stale / zero / future; non-trivial = at least three different request outcomes; distinct = SHA-256 of the Coq case"); err != nil {
 		fmt.Fprintln(os.Stderr, err)
 		os.Exit(2)
 	}
